@@ -217,7 +217,7 @@ Record InvT (p : prm) (k : Z) (h : heap) (s : sto) (l : list (nat * frame)) : Pr
   i_sto : sto_ok p h s;
   i_busy : match p_pol p with PMts => 0 <= k /\ k + sumw trw l = b2z (s_busy s) | _ => k = 0 end;
   i_single : single (p_pol p) = true -> (length l <= 1)%nat;
-  i_pos : 0 <= p_x p
+  i_pos : 0 <= p_x p /\ 0 < p_xal p
 }.
 
 Lemma sumw_nonneg w l : (forall f, 0 <= w f) -> 0 <= sumw w l.
@@ -292,10 +292,10 @@ Lemma zlen_cons {A} (x : A) l : zlen (x :: l) = zlen l + 1.
 Proof. unfold zlen. cbn [length]. lia. Qed.
 
 (* ---------- reusable_storage_mtsafe: the three atomic pieces ---------- *)
-Lemma mts_lost_inv p k h s l slot fid n :
+Lemma mts_lost_inv p k h s l slot fid n fsz :
   p_pol p = PMts -> InvT p k h s l -> 0 < n -> ~ In slot (keys l) ->
   let '(h1, s1, g) := mts_lost h s n in
-  InvT p k h1 s1 ((slot, mkFr fid (g_blk g) n (g_need g) (g_room g) (g_tr g)) :: l).
+  InvT p k h1 s1 ((slot, mkFr fid (g_blk g) n (g_need g) (g_room g) (g_tr g) fsz) :: l).
 Proof.
   intros EP I N K. unfold mts_lost, hnew. cbn [g_blk g_need g_room g_tr].
   destruct I as [IH IC IF IB IK IS IBZ ISG IX].
@@ -334,10 +334,10 @@ Proof.
   - exact IX.
 Qed.
 
-Lemma mts_won_inv p k h s l slot fid n :
+Lemma mts_won_inv p k h s l slot fid n fsz :
   p_pol p = PMts -> 0 <= k -> InvT p (k + 1) h s l -> 0 < n -> ~ In slot (keys l) ->
   let '(h1, s1, g) := mts_won h s n in
-  InvT p k h1 s1 ((slot, mkFr fid (g_blk g) n (g_need g) (g_room g) (g_tr g)) :: l).
+  InvT p k h1 s1 ((slot, mkFr fid (g_blk g) n (g_need g) (g_room g) (g_tr g) fsz) :: l).
 Proof.
   intros EP K0 I N K. destruct I as [IH IC IF IB IK IS IBZ ISG IX].
   rewrite EP in IBZ. pose proof (sumw_nonneg trw l trw_nonneg) as NN.
@@ -469,11 +469,23 @@ Proof.
   pose proof (Z.mod_pos_bound (n + a - 1) a A) as M. lia.
 Qed.
 
-Lemma balloc_inv p h s l slot fid n :
+Lemma align_up_ge n a : 0 < a -> n <= align_up n a.
+Proof. exact (ceil_mul n a). Qed.
+Lemma align_up_mod n a : 0 < a -> align_up n a mod a = 0.
+Proof. intros A. unfold align_up. apply Z.mod_mul. lia. Qed.
+Lemma nreq_ge p sz : 0 <= p_x p /\ 0 < p_xal p -> sz <= xoff p sz /\ xoff p sz + (if 0 <? p_x p then p_x p else 0) <= nreq p sz.
+Proof.
+  intros [X A]. unfold nreq, xoff. destruct (0 <? p_x p) eqn:G; [|lia].
+  pose proof (align_up_ge sz (p_xal p) A). pose proof (align_up_ge (align_up sz (p_xal p) + p_x p) 8 ltac:(lia)). lia.
+Qed.
+Lemma nreq_pos p sz : 0 <= p_x p /\ 0 < p_xal p -> 0 < sz -> 0 < nreq p sz.
+Proof. intros H S. pose proof (nreq_ge p sz H). destruct (0 <? p_x p); lia. Qed.
+
+Lemma balloc_inv p h s l slot fid n fsz :
   InvT p 0 h s l -> 0 < n -> ~ In slot (keys l) ->
   (single (p_pol p) = true -> l = []) -> (p_pol p = PPlc -> n <= p_a p) ->
   let '(h1, s1, g) := balloc p h s n in
-  InvT p 0 h1 s1 ((slot, mkFr fid (g_blk g) n (g_need g) (g_room g) (g_tr g)) :: l).
+  InvT p 0 h1 s1 ((slot, mkFr fid (g_blk g) n (g_need g) (g_room g) (g_tr g) fsz) :: l).
 Proof.
   intros I N K SG PL. unfold balloc. destruct (p_pol p) eqn:EP.
   - (* PDef *)
@@ -527,9 +539,9 @@ Proof.
       * exact IX.
   - (* PMts *)
     destruct (s_busy s) eqn:B.
-    + exact (mts_lost_inv p 0 h s l slot fid n EP I N K).
+    + exact (mts_lost_inv p 0 h s l slot fid n fsz EP I N K).
     + destruct (mts_claim_inv p 0 h s l EP I B) as [_ I1].
-      exact (mts_won_inv p 0 h (set_busy s true) l slot fid n EP ltac:(lia) I1 N K).
+      exact (mts_won_inv p 0 h (set_busy s true) l slot fid n fsz EP ltac:(lia) I1 N K).
   - (* PStk *)
     destruct I as [IH IC IF IB IK IS IBZ ISG IX].
     assert (OLD : forall s', s_ptr s' = s_ptr s -> s_ownc s' = S (s_ownc s) ->
@@ -586,7 +598,7 @@ Proof.
       pose proof (Z.mod_pos_bound (n + p_a p - 1) (p_a p) A0). nia. }
     assert (FIN : forall h1 s1, heap_ok h1 -> zlen (h_live h1) = 1 -> items <= s_bcap s1 -> 0 <= s_bsize s1 <= s_bcap s1 ->
                   forall b1, s_ptr s1 = Some b1 -> In (b1, s_bcap s1 * p_a p) (h_live h1) ->
-                  InvT p 0 h1 s1 [(slot, mkFr fid (optblk (s_ptr s1)) n n (s_bcap s1 * p_a p) false)]).
+                  InvT p 0 h1 s1 [(slot, mkFr fid (optblk (s_ptr s1)) n n (s_bcap s1 * p_a p) false fsz)]).
     { intros h1 s1 HK Z1 LE SZ b1 E1 V1.
       assert (n <= s_bcap s1 * p_a p) by nia.
       constructor; rewrite ?EP.
@@ -638,7 +650,7 @@ Proof. constructor; cbn; auto. intros b z []. Qed.
 Lemma zlen_nil_inv {A} (l : list A) : zlen l = 0 -> l = [].
 Proof. destruct l; [reflexivity|]. unfold zlen. cbn [length]. lia. Qed.
 
-Lemma init_inv p : 0 <= p_x p -> 0 <= p_a p -> 0 <= p_b p -> (p_pol p = PBuf -> 0 < p_a p) ->
+Lemma init_inv p : 0 <= p_x p /\ 0 < p_xal p -> 0 <= p_a p -> 0 <= p_b p -> (p_pol p = PBuf -> 0 < p_a p) ->
   InvT p 0 (hp (init_core p)) (st (init_core p)) (frs (init_core p)) /\ c_up (init_core p) = true.
 Proof.
   intros X A B PB. unfold init_core.
@@ -693,10 +705,10 @@ Proof.
   2:{ destruct o; cbn [prm_of] in *; try exact (conj EP (conj HK (conj UP DN))).
       cbn [wf_op] in W. repeat (apply andb_prop in W; destruct W as [W ?]). apply negb_true_iff in W.
       refine (conj eq_refl (conj HK (conj _ DN))). intros U. congruence. }
-  destruct o as [x a b|slot sz|slot| |]; cbn [prm_of] in *; cbn [exec fst].
+  destruct o as [x a b xal|slot sz|slot| |]; cbn [prm_of] in *; cbn [exec fst].
   - (* Init *)
     cbn [wf_op] in W. repeat (apply andb_prop in W; destruct W as [W ?]).
-    destruct (init_inv (mkPrm pol x a b)) as [I U]; cbn [p_x p_a p_b p_pol]; try lia.
+    destruct (init_inv (mkPrm pol x a b xal)) as [I U]; cbn [p_x p_a p_b p_pol p_xal]; try lia.
     { intros E. cbn [contract p_pol] in CT. rewrite E in CT. lia. }
     refine (conj eq_refl (conj (i_heap _ _ _ _ _ I) (conj (fun _ => I) _))). intros U2. congruence.
   - (* Create *)
@@ -705,11 +717,11 @@ Proof.
     specialize (UP W). pose proof (i_pos _ _ _ _ _ UP) as X.
     assert (SGL : single (p_pol p) = true -> frs c = []).
     { intros S. cbn [contract] in CT. destruct (p_pol p); try discriminate; destruct (frs c); auto; discriminate. }
-    assert (PLC : p_pol p = PPlc -> sz + p_x p <= p_a p).
+    assert (PLC : p_pol p = PPlc -> nreq p sz <= p_a p).
     { intros E. cbn [contract] in CT. rewrite E in CT. destruct (frs c); [lia|discriminate]. }
-    pose proof (balloc_inv p (hp c) (st c) (frs c) slot (c_nfid c) (sz + p_x p) UP ltac:(lia)
+    pose proof (balloc_inv p (hp c) (st c) (frs c) slot (c_nfid c) (nreq p sz) sz UP (nreq_pos p sz X ltac:(lia))
                   (fget_None_keys _ _ G) SGL PLC) as BI.
-    unfold create, mk_frame. destruct (balloc p (hp c) (st c) (sz + p_x p)) as [[h1 s1] g].
+    unfold create, mk_frame. destruct (balloc p (hp c) (st c) (nreq p sz)) as [[h1 s1] g].
     cbn [fst hp st frs c_up]. refine (conj EP (conj (i_heap _ _ _ _ _ BI) (conj (fun _ => BI) _))). intros U2. cbn [c_up] in U2. congruence.
   - (* Finish *)
     cbn [wf_op] in W. apply andb_prop in W. destruct W as [W G].
@@ -907,9 +919,9 @@ Proof.
   intros (EP & HK & UP & DN) W. cbn zeta. unfold gstep.
   destruct (wf_op c o) eqn:WF; cbn [andb]; [|exact W].
   destruct (contract (prm_of pol p o) c o) eqn:CT; cbn [fst].
-  { destruct o as [x a b|slot sz|slot| |]; cbn [prm_of exec fst] in *.
+  { destruct o as [x a b xal|slot sz|slot| |]; cbn [prm_of exec fst] in *.
     - intros _. unfold init_core. cbn [p_pol p_b p_a].
-      assert (B : forall s, s_cap s = 0 -> WIs (mkPrm pol x a b) s 0).
+      assert (B : forall s, s_cap s = 0 -> WIs (mkPrm pol x a b xal) s 0).
       { intros s E. unfold WIs. split; [lia|]. cbn [p_pol]. destruct pol; auto; try lia. }
       destruct pol; try (apply B; reflexivity).
       destruct (0 <? b); [unfold hnew; cbn [st c_max]|]; apply B; reflexivity.
@@ -917,8 +929,8 @@ Proof.
       specialize (UP WF). specialize (W WF). intros _.
       assert (PB : p_pol p = PBuf -> 0 < p_a p).
       { intros E. pose proof (i_sto _ _ _ _ _ UP) as S. unfold sto_ok in S. rewrite E in S. tauto. }
-      pose proof (balloc_WI p (hp c) (st c) (sz + p_x p) (c_max c) W ltac:(pose proof (i_pos _ _ _ _ _ UP); lia) PB) as BW.
-      unfold create, mk_frame. destruct (balloc p (hp c) (st c) (sz + p_x p)) as [[h1 s1] g]. cbn [fst snd st c_max] in *.
+      pose proof (balloc_WI p (hp c) (st c) (nreq p sz) (c_max c) W (nreq_pos p sz (i_pos _ _ _ _ _ UP) ltac:(lia)) PB) as BW.
+      unfold create, mk_frame. destruct (balloc p (hp c) (st c) (nreq p sz)) as [[h1 s1] g]. cbn [fst snd st c_max] in *.
       exact BW.
     - cbn [wf_op] in WF. apply andb_prop in WF. destruct WF as [WF G].
       destruct (fget (frs c) slot) as [f|]; [|discriminate]. specialize (W WF). intros _.
@@ -954,7 +966,7 @@ Qed.
 Lemma warm_no_alloc pol l slot sz : contract_ok pol l = true ->
   let c := final_u pol l in let p := final_p pol l in
   wf_op c (OCreate slot sz) = true -> contract p c (OCreate slot sz) = true -> pol <> PDef ->
-  sz + p_x p <= c_max c -> (pol = PMts -> s_busy (st c) = false) ->
+  nreq p sz <= c_max c -> (pol = PMts -> s_busy (st c) = false) ->
   hp (fst (create p c slot sz)) = hp c.
 Proof.
   intros H c p WF CT ND LE NB. destruct (final_RW pol l H) as [(EP & HK & UP & DN) W]. fold c p in EP, UP, W.
@@ -963,18 +975,18 @@ Proof.
   assert (PB : p_pol p = PBuf -> 0 < p_a p).
   { intros E. pose proof (i_sto _ _ _ _ _ UP) as S. unfold sto_ok in S. rewrite E in S. tauto. }
   pose proof (i_pos _ _ _ _ _ UP) as X.
-  pose proof (balloc_warm p (hp c) (st c) (sz + p_x p) (c_max c) W ltac:(lia) LE PB ltac:(rewrite EP; exact NB) ltac:(rewrite EP; exact ND)) as BW.
-  unfold create, mk_frame. destruct (balloc p (hp c) (st c) (sz + p_x p)) as [[h1 s1] g]. cbn [fst hp] in *. exact BW.
+  pose proof (balloc_warm p (hp c) (st c) (nreq p sz) (c_max c) W (nreq_pos p sz X ltac:(lia)) LE PB ltac:(rewrite EP; exact NB) ltac:(rewrite EP; exact ND)) as BW.
+  unfold create, mk_frame. destruct (balloc p (hp c) (st c) (nreq p sz)) as [[h1 s1] g]. cbn [fst hp] in *. exact BW.
 Qed.
 
 (* ... and every creation served by the policy's block is learned *)
 Lemma learned pol l slot sz :
   let c := final_u pol l in let p := final_p pol l in
-  p_pol p = pol -> (pol = PMts -> s_busy (st c) = false) -> sz + p_x p <= c_max (fst (create p c slot sz)).
+  p_pol p = pol -> (pol = PMts -> s_busy (st c) = false) -> nreq p sz <= c_max (fst (create p c slot sz)).
 Proof.
   intros c p EP NB.
-  pose proof (balloc_learned p (hp c) (st c) (sz + p_x p) (c_max c) ltac:(rewrite EP; exact NB)) as BL.
-  unfold create, mk_frame. destruct (balloc p (hp c) (st c) (sz + p_x p)) as [[h1 s1] g]. cbn [fst snd c_max] in *. exact BL.
+  pose proof (balloc_learned p (hp c) (st c) (nreq p sz) (c_max c) ltac:(rewrite EP; exact NB)) as BL.
+  unfold create, mk_frame. destruct (balloc p (hp c) (st c) (nreq p sz)) as [[h1 s1] g]. cbn [fst snd c_max] in *. exact BL.
 Qed.
 
 (* ... and nothing is forgotten while the storage lives *)
@@ -982,9 +994,9 @@ Lemma cmax_mono p c o : c_up c = true -> c_max c <= c_max (fst (gstep p c o)).
 Proof.
   intros U. unfold gstep. destruct (wf_op c o && contract p c o) eqn:G; [|cbn [fst]; lia].
   apply andb_prop in G. destruct G as [WF _].
-  destruct o as [x a b|slot sz|slot| |]; cbn [exec fst].
+  destruct o as [x a b xal|slot sz|slot| |]; cbn [exec fst].
   - cbn [wf_op] in WF. rewrite U in WF. discriminate.
-  - unfold create, mk_frame. destruct (balloc p (hp c) (st c) (sz + p_x p)) as [[h1 s1] g]. cbn [fst c_max].
+  - unfold create, mk_frame. destruct (balloc p (hp c) (st c) (nreq p sz)) as [[h1 s1] g]. cbn [fst c_max].
     unfold learn. destruct (p_pol p); try lia. destruct (g_tr g); lia.
   - destruct (fget (frs c) slot) as [f|]; cbn [fst]; [|lia].
     unfold finish. destruct (bdealloc p (hp c) (st c) (f_blk f) (f_tr f)). cbn [c_max]. lia.
@@ -1086,14 +1098,14 @@ Proof.
       cbn [wf_op] in WF. repeat (apply andb_prop in WF; destruct WF as [WF ?]).
       match goal with H : (c_nfid c =? 0)%nat = true |- _ => apply Nat.eqb_eq in H; exact (LI_nfid0 _ _ c H L) end. }
   destruct L as [LT ND KD LG].
-  destruct o as [x a b|slot sz|slot| |]; cbn [prm_of exec fst] in *.
+  destruct o as [x a b xal|slot sz|slot| |]; cbn [prm_of exec fst] in *.
   - assert (B : forall h s, LI x (mkCore h s [] 0 0 true [])).
     { intros h s. constructor; cbn [frs c_nfid c_log]; try constructor. intros i f []. }
     unfold init_core. cbn [p_pol p_b p_a p_x].
     destruct pol; try apply B. destruct (0 <? b); [unfold hnew|]; apply B.
   - cbn [wf_op] in WF. repeat (apply andb_prop in WF; destruct WF as [WF ?]).
     destruct (fget (frs c) slot) eqn:G; [discriminate|].
-    unfold create, mk_frame. destruct (balloc p (hp c) (st c) (sz + p_x p)) as [[h1 s1] g]. cbn [fst].
+    unfold create, mk_frame. destruct (balloc p (hp c) (st c) (nreq p sz)) as [[h1 s1] g]. cbn [fst].
     constructor; cbn [frs c_nfid c_log].
     + intros i f [A|A]; [inversion A; subst; cbn [f_id]; lia|]. specialize (LT _ _ A). lia.
     + cbn [fids map snd f_id]. constructor; [|exact ND].
@@ -1146,4 +1158,72 @@ Lemma extra_object pol l fid : contract_ok pol l = true ->
 Proof.
   intros H c. unfold c, final_p, final_u, run_u. unfold contract_ok in H. rewrite (contract_ok_same pol l _ _ H).
   apply (li_log _ _ (run_LI pol l (prm0 pol) core0 ltac:(constructor; cbn; try constructor; intros ? ? []))).
+Qed.
+
+(* ====================================================================================================
+   placement of the extra object and of the base policy's trailer inside the block *)
+Definition NI (p : prm) (c : core) : Prop :=
+  forall i f, In (i, f) (frs c) -> f_n f = nreq p (f_sz f) /\ 0 < f_sz f.
+
+Lemma gstep_NI pol p c o : RI pol p c -> NI p c ->
+  let p1 := if wf_op c o then prm_of pol p o else p in NI p1 (fst (gstep p1 c o)).
+Proof.
+  intros (EP & HK & UP & DN) N. cbn zeta. unfold gstep.
+  destruct (wf_op c o) eqn:WF; cbn [andb]; [|exact N].
+  assert (INIT : forall x a b xal, o = OInit x a b xal -> frs c = []).
+  { intros x a b xal ->. cbn [wf_op] in WF. repeat (apply andb_prop in WF; destruct WF as [WF ?]). apply negb_true_iff in WF.
+    exact (proj1 (DN WF)). }
+  destruct (contract (prm_of pol p o) c o) eqn:CT; cbn [fst].
+  2:{ destruct o; cbn [prm_of] in *; try exact N. intros i f A. rewrite (INIT _ _ _ _ eq_refl) in A. contradiction. }
+  destruct o as [x a b xal|slot sz|slot| |]; cbn [prm_of exec fst] in *.
+  - intros i f A. unfold init_core in A. cbn [p_pol p_b] in A.
+    destruct pol; cbn [frs] in A; try contradiction. destruct (0 <? b); [unfold hnew in A|]; cbn [frs] in A; contradiction.
+  - cbn [wf_op] in WF. repeat (apply andb_prop in WF; destruct WF as [WF ?]).
+    unfold create, mk_frame. destruct (balloc p (hp c) (st c) (nreq p sz)) as [[h1 s1] g]. cbn [fst].
+    intros i f [A|A]; [|exact (N _ _ A)]. inversion A; subst. cbn [f_n f_sz]. split; [reflexivity|lia].
+  - destruct (fget (frs c) slot) as [f|]; cbn [fst]; [|exact N].
+    unfold finish. destruct (bdealloc p (hp c) (st c) (f_blk f) (f_tr f)) as [h1 s1].
+    intros i g A. cbn [frs] in A. apply In_fdel in A. exact (N _ _ (proj1 A)).
+  - unfold destroy. exact N.
+  - discriminate.
+Qed.
+
+Lemma run_RN pol : forall l p c, RI pol p c -> NI p c ->
+  RI pol (fst (snd (run_with gstep pol p c l))) (snd (snd (run_with gstep pol p c l))) /\
+  NI (fst (snd (run_with gstep pol p c l))) (snd (snd (run_with gstep pol p c l))).
+Proof.
+  induction l as [|o l IH]; intros p c R N; cbn [run_with]; [split; assumption|].
+  pose proof (gstep_RI pol p c o R) as R1. pose proof (gstep_NI pol p c o R N) as N1. cbn zeta in R1, N1.
+  destruct (gstep (if wf_op c o then prm_of pol p o else p) c o) as [c1 ob] eqn:E. cbn [fst] in R1, N1.
+  specialize (IH _ _ R1 N1).
+  destruct (run_with gstep pol (if wf_op c o then prm_of pol p o else p) c1 l) as [obs r]. exact IH.
+Qed.
+
+(* C19 bytes inside the block.  A live frame of compiler size sz occupies [0, sz) of its block; the extra object (size x,
+   alignment xal) occupies [xoff, xoff + x) with sz <= xoff and xoff a multiple of xal; the base policy was asked for n bytes
+   with xoff + x <= n, n a multiple of 8 (so the owner pointer / flag byte it writes at offset n is aligned), and
+   n + trailer fits into the room behind the frame.  Blocks start at an address aligned for operator new / alloca (16). *)
+Lemma extra_placed pol l i f : contract_ok pol l = true -> fget (frs (final_u pol l)) i = Some f ->
+  let p := final_p pol l in
+  let sz := f_sz f in let n := f_n f in
+  0 < sz /\ sz <= xoff p sz /\ n + trailer pol <= f_room f /\
+  (0 < p_x p -> xoff p sz mod p_xal p = 0 /\ xoff p sz + p_x p <= n /\ n mod 8 = 0) /\
+  (p_x p = 0 -> xoff p sz = sz /\ n = sz).
+Proof.
+  intros H G p sz n.
+  assert (RN : RI pol p (final_u pol l) /\ NI p (final_u pol l)).
+  { unfold p, final_p, final_u, run_u. unfold contract_ok in H. rewrite (contract_ok_same pol l _ _ H).
+    apply run_RN; [apply core0_RI|intros ? ? []]. }
+  destruct RN as [(EP & HK & UP & DN) N].
+  destruct (c_up (final_u pol l)) eqn:U; [|destruct (DN eq_refl) as [E _]; rewrite E in G; discriminate].
+  pose proof (fget_In _ _ _ G) as GI. specialize (UP eq_refl).
+  destruct (N _ _ GI) as [NE SP]. pose proof (i_pos _ _ _ _ _ UP) as [X XA].
+  destruct (i_frames _ _ _ _ _ UP _ _ GI) as (F1 & F2 & F3 & _). rewrite EP in F2.
+  pose proof (nreq_ge p sz (conj X XA)) as [G1 G2].
+  refine (conj SP (conj G1 (conj _ (conj _ _)))).
+  - unfold n. lia.
+  - intros PX. unfold n, sz. rewrite NE. fold sz. unfold nreq, xoff in *.
+    assert (0 <? p_x p = true) as E by lia. rewrite E in *.
+    refine (conj (align_up_mod _ _ XA) (conj G2 (align_up_mod _ 8 ltac:(lia)))).
+  - intros PX. unfold n, sz. rewrite NE. fold sz. unfold nreq, xoff. rewrite PX. cbn. auto.
 Qed.
